@@ -38,6 +38,7 @@ import CtyModel.Lemmas.ConvertD08Covers
 import CtyModel.Lemmas.ConvertD08Roundtrip
 import CtyModel.Lemmas.ConvertD08CoversColl
 import CtyModel.Lemmas.d08bUnmark
+import CtyModel.Lemmas.d08bFrontier
 namespace CtyModel
 namespace C08
 open Convert Ty
@@ -121,6 +122,36 @@ theorem resultResolvesPlaceholders_false : ¬ ResultResolvesPlaceholders := by
   revert this
   decide
 
+/-! ### the frontier of `ResultResolvesPlaceholders`
+
+Where exactly an empty collection does and does not resolve a placeholder, and the second recorded
+shape (a set whose length is unknown). -/
+
+/-- What does hold for EMPTY collections, for every environment, fuel and element type: a placeholder
+that IS the element type of the target is replaced by the input's element type (list → list,
+set → list, set → set, map → map; list → set in unsafe mode).  Only placeholders NESTED inside the
+element type come back (`result_resolves_placeholders_counterexample`). -/
+theorem empty_collection_resolves_direct_placeholder (E : Env) (fuel : Nat) (ie : Ty) (h : ie.isDyn = false) :
+    convert E (fuel + 2) ⟨.list ie, .seq []⟩ (.list .dyn) = .ok ⟨.list ie, .seq []⟩ ∧
+    convert E (fuel + 2) ⟨.set ie, .sset [] []⟩ (.list .dyn) = .ok ⟨.list ie, .seq []⟩ ∧
+    convert E (fuel + 2) ⟨.set ie, .sset [] []⟩ (.set .dyn) = .ok ⟨.set ie, .sset [] []⟩ ∧
+    convert E (fuel + 2) ⟨.list ie, .seq []⟩ (.set .dyn) = .ok ⟨.set ie, .sset [] []⟩ ∧
+    convert E (fuel + 2) ⟨.map ie, .smap [] []⟩ (.map .dyn) = .ok ⟨.map ie, .smap [] []⟩ := by
+  cases ie <;> first | (simp [Ty.isDyn] at h; done) | exact ⟨rfl, rfl, rfl, rfl, rfl⟩
+
+/-- the second recorded witness (`set-unknown-length-keeps-nested-placeholder`): a set holding an
+unknown member has an unknown number of elements, so its conversion to a list is an unknown list —
+of the target's element type AS WRITTEN, `set(placeholder)`, although the input's element type
+`list(string)` has no placeholder.  In the driver's environment too. -/
+theorem result_resolves_placeholders_unknown_length_counterexample :
+    Value.wt ⟨.set (.list .string), .sset [1, 2] [.seq [.s "a"], .unk .unref]⟩ = true ∧
+    convert Env.simple 4 ⟨.set (.list .string), .sset [1, 2] [.seq [.s "a"], .unk .unref]⟩ (.list (.set .dyn)) =
+      .ok ⟨.list (.set .dyn), .unk .unref⟩ ∧
+    convert driverEnv 4 ⟨.set (.list .string), .sset [1, 2] [.seq [.s "a"], .unk .unref]⟩ (.list (.set .dyn)) =
+      .ok ⟨.list (.set .dyn), .unk .unref⟩ ∧
+    resolvedIn (.set (.list .string)) (.list (.set .dyn)) = false := by
+  refine ⟨by decide, rfl, rfl, by decide⟩
+
 /-! ## Identity and idempotence -/
 
 /-- Converting a value to its own type (disregarding annotations of the target)
@@ -141,6 +172,42 @@ theorem identity_own_type (E : Env) (fuel : Nat) (v : Value) (hw : Value.wt v = 
 theorem idempotent_partial (E : Env) (hU : UnifyLaws E) (fuel fuel' : Nat) (v r : Value) (want : Ty)
     (hp : RegularPair v want) (h : convert E fuel v want = .ok r) : convert E fuel' r want = .ok r :=
   convert_idempotent hU hp h
+
+/-- Full statement of "a value that already conforms to the requested type converts to itself",
+placeholders in the target included.  FALSE of the code — see
+`conforming_converts_to_itself_counterexample`; for targets without placeholders conformance is
+equality of types up to annotations and `identity` applies. -/
+def ConformingConvertsToItself : Prop :=
+  ∀ (E : Env) (fuel : Nat) (v : Value) (want : Ty), UnifyLaws E → Value.wt v = true → want.wf = true →
+    conformsTo want v = true → convert E fuel v want = .ok v ∨ convert E fuel v want = .unmodelled
+
+/-- the witness (the consequence of `empty-collection-keeps-nested-placeholder` recorded under
+`idempotent`): a list of two lists of maps, the first EMPTY, conforms to list(list(map(placeholder)))
+but does not convert to it — the empty member becomes a `list(map(placeholder))`, its neighbour a
+`list(map(bool))`, and `ListVal` refuses the mixture.  An error, in every fuel ≥ 4 and in the
+driver's environment too. -/
+theorem conforming_converts_to_itself_counterexample :
+    Value.wt ⟨.list (.list (.map .bool)), .seq [.seq [], .seq [.smap ["k"] [.b true]]]⟩ = true ∧
+    conformsTo (.list (.list (.map .dyn)))
+      ⟨.list (.list (.map .bool)), .seq [.seq [], .seq [.smap ["k"] [.b true]]]⟩ = true ∧
+    convert Env.simple 8 ⟨.list (.list (.map .bool)), .seq [.seq [], .seq [.smap ["k"] [.b true]]]⟩
+      (.list (.list (.map .dyn))) = .err "element types must all match for conversion to list" ∧
+    convert driverEnv 8 ⟨.list (.list (.map .bool)), .seq [.seq [], .seq [.smap ["k"] [.b true]]]⟩
+      (.list (.list (.map .dyn))) = .err "element types must all match for conversion to list" := by
+  refine ⟨by decide, by decide, rfl, rfl⟩
+
+theorem conformingConvertsToItself_false : ¬ ConformingConvertsToItself := by
+  intro h
+  have := h Env.simple 8 ⟨.list (.list (.map .bool)), .seq [.seq [], .seq [.smap ["k"] [.b true]]]⟩
+    (.list (.list (.map .dyn))) unifyLaws_simple (by decide) (by decide)
+    conforming_converts_to_itself_counterexample.2.1
+  rw [conforming_converts_to_itself_counterexample.2.2.1] at this
+  simp at this
+
+/-- the same two lists without the empty one convert to themselves: the failure needs the empty member -/
+example : convert Env.simple 8 ⟨.list (.list (.map .bool)), .seq [.seq [.smap ["j"] [.b false]], .seq [.smap ["k"] [.b true]]]⟩
+    (.list (.list (.map .dyn))) =
+    .ok ⟨.list (.list (.map .bool)), .seq [.seq [.smap ["j"] [.b false]], .seq [.smap ["k"] [.b true]]]⟩ := rfl
 
 /-! ## Unknown and null inputs -/
 
@@ -202,6 +269,44 @@ theorem unknown_sound_partial (E : Env) (hU : UnifyLaws E) (fuel : Nat) (uns : B
 unknown set of at least 2 strings becomes an unknown set of numbers with at least 1 member -/
 example : convert Env.simple 4 ⟨.set .string, .unk (.coll .u 2 3)⟩ (.set .number) =
     .ok ⟨.set .number, .unk (.coll .u 1 3)⟩ := rfl
+
+/-- UNKNOWN SET → SET: whatever length bounds the unknown set carries, the unknown set the conversion
+returns promises AT MOST ONE member as its lower bound (and none if the input may be empty), and
+its upper bound is no tighter than the input's — members may coalesce under the element
+conversion, never vanish, never multiply.  For every environment satisfying `UnifyLaws` (the
+driver's: `unifyLaws_driver`), every fuel, both modes.  The seeded change
+`C08-unknown-set-to-set-keeps-length-lower-bound` (copy the source's lower bound when the source is
+a set) contradicts this theorem for every input with lower bound ≥ 2. -/
+theorem unknown_set_to_set_lower_bound (E : Env) (hU : UnifyLaws E) (fuel : Nat) (uns : Bool) (v r : Value)
+    (ie oe : Ty) (p : Plan) (hty : v.ty = .set ie) (hp : RegularPair v (.set oe))
+    (hg : getConv E v.ty (.set oe) uns = some p) (hm : v.isMarked = false) (hk : v.isKnown = false)
+    (h : apply E (fuel + 1) p v = .ok r) :
+    r.ty = .set oe.stripOpt ∧ ∀ rf, r.v = .unk rf → lenLo rf ≤ 1 ∧
+      ∃ rng hi, Refine.range v = .ok rng ∧ rng.lengthUpperBound = .ok hi ∧ min hi Refine.maxInt ≤ lenHi rf := by
+  obtain ⟨hrt, rng, hrng, hrty, hall⟩ := unknown_sound_partial E hU fuel uns v r (.set oe) p hp hg hm hk h
+  refine ⟨hrt, fun rf hrf => ?_⟩
+  have hc : Refine.isCollectionTy v.ty = true := by rw [hty]; rfl
+  obtain ⟨lo, hi, hlo, hhi⟩ := D08B.lenBounds_defined rng (by rw [hrty]; exact hc)
+  have := ((hall rf hrf).2.1 lo hi oe.stripOpt hc hlo hhi).1 rfl
+  refine ⟨?_, rng, hi, hrng, hhi, this.2⟩
+  have h1 := this.1
+  split at h1 <;> omega
+
+/-- why the bound cannot be kept: in an environment whose member equivalence is exact
+(`D08B.envExact`) the unknown set of 2 to 3 strings admits the set {"1", "01"}, whose conversion to
+a set of numbers has ONE member; the result the code gives for the unknown (1 to 3 numbers) admits
+it, the result of the seeded change (2 to 3 numbers) does not. -/
+theorem unknown_set_to_set_lower_bound_needed :
+    Covers ⟨.set .string, .unk (.coll .u 2 3)⟩ ⟨.set .string, .sset [0, 0] [.s "1", .s "01"]⟩ = true ∧
+    convert D08B.envExact 4 ⟨.set .string, .sset [0, 0] [.s "1", .s "01"]⟩ (.set .number) =
+      .ok ⟨.set .number, .sset [0] [.n (.fin false 1 0 512)]⟩ ∧
+    convert D08B.envExact 4 ⟨.set .string, .unk (.coll .u 2 3)⟩ (.set .number) =
+      .ok ⟨.set .number, .unk (.coll .u 1 3)⟩ ∧
+    Covers ⟨.set .number, .unk (.coll .u 1 3)⟩ ⟨.set .number, .sset [0] [.n (.fin false 1 0 512)]⟩ = true ∧
+    Covers ⟨.set .number, .unk (.coll .u 2 3)⟩ ⟨.set .number, .sset [0] [.n (.fin false 1 0 512)]⟩ = false := by
+  refine ⟨by decide, rfl, rfl, by decide, by decide⟩
+
+example : UnifyLaws D08B.envExact := D08B.unifyLaws_exact
 
 /-! ### … stated with `Covers`, marked inputs included
 
